@@ -38,6 +38,7 @@ pub enum HostSpec<'a> {
 pub struct UrlSpec<'a> {
     pub https: bool,
     pub user: &'a [u8],
+    /// password; must be non-empty when present (the parser drops an empty password)
     pub pass: Option<&'a [u8]>,
     pub host: HostSpec<'a>,
     /// explicit non-default port: value + its decimal text (no leading zeros)
